@@ -2,7 +2,11 @@ module verif
 
 go 1.12
 
-require github.com/youchainhq/go-youchain v0.0.0
+require (
+	github.com/youchainhq/go-youchain v0.0.0
+	golang.org/x/crypto v0.0.0-20200423211502-4bdfaf469ed5
+	gonum.org/v1/gonum v0.0.0-20190628223043-536a303fd62f
+)
 
 replace github.com/youchainhq/go-youchain => /repo
 
